@@ -28,6 +28,7 @@ type c09Case struct {
 	TsNs    int64   `json:"ts"`     // absolute timestamp, or offset from now if Rel
 	Rel     bool    `json:"rel"`
 	Mutate  string  `json:"mutate"` // header field mutated after signing ("" = none)
+	Genesis int     `json:"genesis"` // BP count at boot: dpos.New calls Init(bpc.Size()) once, before any election (0 = current size)
 }
 
 type c09Obs struct {
@@ -71,6 +72,11 @@ func TestVerifC09Engine(t *testing.T) {
 		if err := json.Unmarshal(sc.Bytes(), &c); err != nil {
 			continue
 		}
+		g := c.Genesis
+		if g == 0 {
+			g = len(c.Members)
+		}
+		Init(uint16(g)) // package state as dpos.New leaves it (also re-initialises the slot interval)
 		slot.Init(c.IvSec)
 		cl := &bp.Cluster{}
 		for _, h := range c.History {
